@@ -1,0 +1,6 @@
+//go:build !verif
+
+package processors
+
+// VerifShape is only meaningful in builds with `-tags verif`.
+func VerifShape(p IProcessor) (string, int, bool) { return "", 0, true }
